@@ -82,8 +82,12 @@ def _(ir: IntegralIR) -> KernelTensorSizes:
     coords = width * ir.expression.number_coordinate_dofs * 3
     local_index = 2  # TODO: this is just an upper bound, harmful?
     # Interior facet kernels index their (permuted) tables with quadrature_permutation even
-    # when only one restriction appears and needs_facet_permutations is false
-    permuted = ir.expression.needs_facet_permutations or width == 2
+    # when only one restriction appears and needs_facet_permutations is false; so do ridge kernels
+    permuted = (
+        ir.expression.needs_facet_permutations
+        or width == 2
+        or ir.expression.integral_type == "ridge"
+    )
     permutation = 2 if permuted else 0
 
     return KernelTensorSizes(A, w, c, coords, local_index, permutation)
